@@ -117,20 +117,53 @@ def val_rules(code, lead=0, extra=()):
     ] + list(extra)
 
 
+def valk_rules(w=16):
+    return [BITITER_NEXT_REC,
+            (r"^(vals|c10k|hcons)::", "*", 34),
+            (r"vals::(mark|n_paths|fix_tags)$", "rec", 8),
+            (r"^memcmp$", "*", 34),
+            (r"Value::from_padded_bits", ("rank", 0), w // 8 + 2),
+            (r"Value::from_padded_bits", ("rank", 1), 9),
+            (r"value::copy_bits", "*", 18),
+            (r"RecHasher", "*", 34)]
+
+
+ACC = ["sum_u_b", "sum_n_b", "sum_b_y", "prod_b_y", "prod_u_c", "prod_sum", "sum_prod", "sum_sum"]
+QUICK_ACC = {"sum_n_b", "sum_b_y", "prod_sum"}
 PROPS["C10"] = {
-    "filters": ["k10_", "kprobe_"],
-    "functions": [],
+    "filters": ["k10_"],
+    "functions": ["value::{copy_bits, right_shift_1, product} (private kernels behind Value::{left,right,product}, via verif-hooks)",
+                  "ValueRef::{as_left, as_right, as_product, first_bit, to_value}", "RawByteIter::next", "Value::{iter_padded, padded_len, from_padded_bits}",
+                  "Final::{sum, product, bit_width, as_sum, as_product}"],
+    "bounds": "buffers of 2-4 symbolic bytes, every bit offset 0..7, copies of up to 16 bits at every source/destination alignment; 8 type shapes (sums of unequal width with padding on either side, unit-heavy and nested products/sums, widths crossing byte boundaries) with all data, padding and surrounding bits symbolic",
+    "outside": "the compact encoding (CompactBitsIter, from_compact_bits) and Value::prune: they walk Vec<ValueRef>/Vec<Value> worklists whose symbolic execution exhausts 62 GB even for a 2-bit value (measured, DESIGN.md); types wider than 17 bits; words beyond 2^8, buffer and context types",
+    "assumptions": ["values are built from raw parts (buffer, bit offset, type) through the verif-hooks, which is what sub-value extraction produces",
+                    "Tmr::sum/product stubbed by exact hash-consing (type equality exact, root values abstract); precomputed types rebuilt without the thread-local cache; Arc::drop_slow leaks"],
     "harnesses": [
-        H("k10_probe_1pb_dec", timeout=600, unwind=8, unwindset=val_rules("ub+")),
-        H("kprobe_compact_len", timeout=200, unwind=8, unwindset=val_rules("ub+")),
-        H("kprobe_build_only", timeout=200, unwind=8, unwindset=val_rules("ub+")),
-        H("kprobe_build_only_realsha", timeout=300, unwind=8, unwindset=val_rules("ub+")),
-        H("kprobe_build_only_tmrstub", timeout=200, unwind=8, unwindset=val_rules("ub+")),
-        H("kprobe_produce_only_tmrstub", timeout=200, unwind=8, unwindset=val_rules("ub+")),
-        H("kprobe_compact_len_tmrstub", timeout=300, unwind=8, unwindset=val_rules("ub+")),
-        H("kprobe_compact_len_tmrstub_push", timeout=300, unwind=8, unwindset=val_rules("ub+")),
-        H("kprobe_produce_only", timeout=200, unwind=8, unwindset=val_rules("ub+")),
-        H("kprobe_compact_len_pushstub", timeout=200, unwind=8, unwindset=val_rules("ub+")),
+        H("k10_copy_bits", timeout=900),
+        H("k10_right_shift_1", timeout=900, unwindset=valk_rules()),
+        H("k10_product_kernel", timeout=1200, mem_gb=12, unwindset=valk_rules()),
+    ] + [H("k10_acc_%s" % a, tiers=(("quick", "thorough") if a in QUICK_ACC else ("thorough",)), timeout=1800, mem_gb=16,
+           unwind=8, unwindset=valk_rules()) for a in ACC] + [
+        H("k10_pdec_sum_b_y", timeout=1800, mem_gb=16, unwind=8, unwindset=valk_rules()),
+        H("k10_pdec_prod_yy", tiers=("thorough",), timeout=1800, mem_gb=16, unwind=8, unwindset=valk_rules()),
+        H("k10_pdec_unit", tiers=("thorough",), timeout=900, unwind=8, unwindset=valk_rules()),
+    ],
+}
+
+PROPS["C11"] = {
+    "filters": ["k11_"],
+    "functions": ["<Value as PartialEq>::eq", "<Value as Ord>::cmp", "<Value as PartialOrd>::partial_cmp", "<Value as Hash>::hash", "RawByteIter::next", "<Final as PartialEq>::eq"],
+    "bounds": "pairs of values of the same type built from independent 4-byte symbolic buffers at independent bit offsets 0..7; types: 2+2^8, (1+2)x2^4, 2^8, 2^4+2 (clean histories) and 2+2^8, 2 (dirty histories: arbitrary sum padding and arbitrary bits after the value)",
+    "outside": "histories that need the compact decoder or prune; transitivity over triples; other type shapes",
+    "assumptions": ["values are built from raw parts through the verif-hooks", "Tmr stubs as in C10"],
+    "harnesses": [
+        H("k11_eq_clean_sum_b_y", timeout=1800, mem_gb=16, unwind=8, unwindset=valk_rules()),
+        H("k11_eq_clean_prod_sum", timeout=1800, mem_gb=16, unwind=8, unwindset=valk_rules()),
+        H("k11_eq_clean_byte", tiers=("thorough",), timeout=1800, mem_gb=16, unwind=8, unwindset=valk_rules()),
+        H("k11_eq_clean_sum_n_b", tiers=("thorough",), timeout=1800, mem_gb=16, unwind=8, unwindset=valk_rules()),
+        H("k11_eq_dirty_sum_b_y", timeout=1800, mem_gb=16, unwind=8, unwindset=valk_rules()),
+        H("k11_eq_dirty_bit", timeout=1800, mem_gb=16, unwind=8, unwindset=valk_rules()),
     ],
 }
 
@@ -140,5 +173,90 @@ PROPS["C14"] = {
         "the bit reader is modelled as a stream of up to 24 symbolic bits with a cursor (Iterator::next returns the next bit or None at the symbolic end); BitWriter::write_bits_be(n, len) is modelled as emitting the len low bits of n, most significant first (both are checked on the real code under C13)",
         "variant <-> discriminant <-> name tables are read from the compiled MIR of the derived Debug impl and of Display; every table is validated against the native build (encode, decode, Display, FromStr of every jet) on every run",
         "str equality is modelled as equality of interned identifiers of the string constants",
+    ],
+}
+
+def dag_rules(n, items):
+    return [
+        (r"^c18::", "*", 17),
+        (r"^c18::(oracle_post|oracle_pre)$", "rec", n + 2),
+        (r"PostOrderIter<.*> as .*Iterator>::next$", "*", 2 * n + 3),
+        (r"PreOrderIter<.*> as .*Iterator>::next$", "*", n + 3),
+    ]
+
+
+PROPS["C18"] = {
+    "filters": ["k18_"],
+    "functions": ["PostOrderIter::next", "PreOrderIter::next", "SwapChildren", "PostOrderIterItem::unswap",
+                  "DagLike::{post_order_iter, rtl_post_order_iter, pre_order_iter, left_child, right_child}"],
+    "bounds": "every DAG of exactly 3 (quick) / 4 (thorough) nodes whose edges point to lower-numbered nodes (root = last), every arity, repeated children, diamonds, child-and-grandchild; sharing: pointer identity, an arbitrary congruence (identity-hash sharing), none (tree expansion up to 7 / 15 items)",
+    "outside": "graphs with more than 4 nodes; the HashMap-backed trackers InternalSharing/MaxSharing (replaced by an array-backed implementation of the same SharingTracker trait); VerbosePreOrderIter; is_shared_as",
+    "assumptions": ["sharing trackers are array-backed implementations of the real SharingTracker trait keyed by node index / class id"],
+    "harnesses": [
+        H("k18_post_ptr_n3", timeout=900, unwindset=dag_rules(3, 3)),
+        H("k18_post_cls_n3", timeout=900, unwindset=dag_rules(3, 3)),
+        H("k18_post_nosharing_n3", timeout=900, unwindset=dag_rules(3, 7)),
+        H("k18_rtl_ptr_n3", timeout=900, unwindset=dag_rules(3, 3)),
+        H("k18_rtl_cls_n3", timeout=900, unwindset=dag_rules(3, 3)),
+        H("k18_rtl_nosharing_n3", timeout=900, unwindset=dag_rules(3, 7)),
+        H("k18_pre_ptr_n3", timeout=900, unwindset=dag_rules(3, 3)),
+        H("k18_pre_cls_n3", timeout=900, unwindset=dag_rules(3, 3)),
+        H("k18_post_ptr_n4", tiers=("thorough",), timeout=3000, mem_gb=16, unwindset=dag_rules(4, 4)),
+        H("k18_post_cls_n4", tiers=("thorough",), timeout=3000, mem_gb=16, unwindset=dag_rules(4, 4)),
+        H("k18_rtl_cls_n4", tiers=("thorough",), timeout=3000, mem_gb=16, unwindset=dag_rules(4, 4)),
+        H("k18_pre_cls_n4", tiers=("thorough",), timeout=3000, mem_gb=16, unwindset=dag_rules(4, 4)),
+        H("k18_post_nosharing_n4", tiers=("thorough",), timeout=3600, mem_gb=20, core=False, unwindset=dag_rules(4, 15)),
+    ],
+}
+
+def frame_rules(nat_bits=9):
+    return [BITITER_NEXT_REC, WRITE_BIT_REC,
+            (r"BitWriter::<.*>::write_bits_be$", "*", nat_bits + 1),
+            (r"::read_natural::<", ("rank", 0), 5),
+            (r"::read_natural::<", ("rank", 1), 5),
+            (r"::read_natural::<", ("rank", 2), nat_bits + 1),
+            (r"encode_natural::<", "*", 5),
+            (r"encode::encode_hash", "*", 66),
+            (r"BitIter::<.*>::read_(cmr|fail_entropy)$", "*", 66),
+            (r"^(c01|hcons)::", "*", 66),
+            (r"sink::Sink<", "*", 4)]
+
+
+FRAME_KINDS = ["iden", "unit", "injl", "injr", "take", "drop", "comp", "case", "pair", "disconnect2",
+               "disconnect1", "witness", "fail", "jet", "assertl", "assertr"]
+QUICK_FRAMES = {"iden", "injl", "comp", "disconnect1", "witness", "jet", "assertl"}
+
+PROPS["C01"] = {
+    "filters": ["k01_"],
+    "functions": ["bit_encoding::encode::encode_node (private, via verif-hooks)", "bit_encoding::decode::decode_node (private, via verif-hooks)",
+                  "encode_natural", "BitIter::read_natural", "encode_hash", "BitIter::{read_cmr, read_fail_entropy}"],
+    "bounds": "one node of each of the 16 combinator kinds + hidden, at a symbolic position index in [1,255] with symbolic child positions, symbolic fail entropy / hidden CMR / jet choice: encode_node then decode_node gives the same combinator, the same absolute child indices and payload and consumes exactly the written bits",
+    "outside": "whole programs (sharing, canonical order, type inference, witness attachment: the program-level encoder/decoder works on Arc/Vec/HashMap structures that CBMC cannot execute symbolically in reach - measured, see DESIGN.md); word nodes (Value machinery); the real jet families (their codes are C14's subject: a two-jet family stands in); positions above 255",
+    "assumptions": ["nodes are built with Node::from_parts for a harness-defined Marker (no cached data)", "CMR constructors stubbed by exact hash-consing (values abstract)"],
+    "harnesses": [H("k01_frame_%s" % k, tiers=(("quick", "thorough") if k in QUICK_FRAMES else ("thorough",)), timeout=1800, mem_gb=12,
+                    unwind=5, unwindset=frame_rules()) for k in FRAME_KINDS]
+                 + [H("k01_frame_hidden", timeout=1800, mem_gb=12, unwind=5, unwindset=frame_rules())],
+}
+
+PROPS["C02"] = {
+    "filters": ["k02_"],
+    "functions": ["bit_encoding::decode::decode_node (private, via verif-hooks)", "BitIter::{read_bit, read_u2, read_natural, read_cmr, read_fail_entropy}"],
+    "bounds": "arbitrary 6-byte strings of symbolic length 0..6 at a symbolic position index <= 65535, split by the leading code bits into five harnesses: the node decoder never panics or overflows (index - natural, n - 1) and only returns child references strictly below index",
+    "outside": "whole-program decoding and the canonicity rules that need several nodes (sharing, hidden-node repetition, canonical order, padding/trailing bytes at program level): Arc/Vec/HashSet/type-inference structures are out of CBMC's reach (measured); BitIter::close is covered under C13; word bodies; allocation bounds",
+    "harnesses": [
+        H("k02_total_binary", timeout=1800, mem_gb=12, unwind=5, unwindset=frame_rules(17)),
+        H("k02_total_unary", timeout=1800, mem_gb=12, unwind=5, unwindset=frame_rules(17)),
+        H("k02_total_leaf", timeout=1800, mem_gb=12, unwind=5, unwindset=frame_rules(17)),
+        H("k02_total_witness_hidden", timeout=1800, mem_gb=12, unwind=5, unwindset=frame_rules(17)),
+        H("k02_total_jet", timeout=1800, mem_gb=12, unwind=5, unwindset=frame_rules(17)),
+    ],
+}
+
+PROPS["C07"] = {
+    "engine": "mir",
+    "assumptions": [
+        "the interpreter's peak cell/frame usage per combinator is the recurrence read off BitMachine::exec_with_tracker (comp: mid + max, 1 + max; disconnect: src + tgt + max, 2 + max; case/pair: max; unary: child; leaves: 0); it is a model, validated natively against the real interpreter's verif-hooks high-water marks on a family of concrete programs on every run",
+        "frame bounds of sub-expressions are at most 2^62 (they count nested frames)",
+        "models of core helpers (cmp::max, Try::branch, FromResidual, Arc deref, vec allocation returning the requested length/capacity) as written in vlib/mir2smt.py and vlib/mircheck.py",
     ],
 }
